@@ -529,9 +529,17 @@ func init() {
 				}
 			}
 			b.Have = have
+			stays := false
 			switch r.Intn(6) {
 			case 0, 1:
 				b.Snub = true
+				if r.Chance(0.4) {
+					// silent, and after the client has given up on it (snubbed) it chokes and
+					// unchokes again: the client asks again and is stalled a second time. It stays.
+					b.ChokeFlapEvery = tp.K.RequestTimeout + r.Dur(500*time.Millisecond, 2*tp.K.RequestTimeout)
+					b.ChokeFlaps = simrt.Pick(r, []int{2, 2, 4, 0})
+					stays = true
+				}
 			case 2:
 				b.SnubAfter = r.Range(1, 6)
 			case 3:
@@ -550,7 +558,7 @@ func init() {
 			if r.Chance(0.4) {
 				b.RedundantHaves = r.Range(1, 6)
 			}
-			ps := PeerSpec{Name: fmt.Sprintf("s%d", i), B: b, Mode: simrt.Pick(r, []string{"dial", "listen"}), At: r.Dur(0, tp.FaultsStop/2), Via: "manual"}
+			ps := PeerSpec{Name: fmt.Sprintf("s%d", i), B: b, Mode: simrt.Pick(r, []string{"dial", "listen"}), At: r.Dur(0, tp.FaultsStop/2), Via: "manual", Stays: stays}
 			if ps.Mode == "dial" && r.Chance(0.3) {
 				ps.Redial = r.Dur(2*time.Second, 20*time.Second)
 			}
@@ -605,7 +613,13 @@ func init() {
 		tp.Magnet = r.Chance(0.35)
 		tp.PreSeeded = !tp.Magnet && r.Chance(0.3)
 		for i := 0; i < r.Range(1, 4); i++ {
-			hs := &refbt.HostileSpec{Kind: simrt.Pick(r, []string{"oversize", "garbage", "valid", "valid", "mixed", "mixed", "truncate", "shortframe"}), N: r.Range(1, 200), Max: maxMsg, Nice: r.Chance(0.5)}
+			hs := &refbt.HostileSpec{Kind: simrt.Pick(r, []string{"oversize", "garbage", "valid", "valid", "mixed", "mixed", "truncate", "shortframe", "ghost"}), N: r.Range(1, 200), Max: maxMsg, Nice: r.Chance(0.5)}
+			if hs.Kind == "ghost" {
+				hs.Nice = false
+				if tp.Magnet && r.Chance(0.6) {
+					tp.K.EndgameMaxDuplicateDownloads = 1
+				}
+			}
 			b := refbt.Behavior{Fast: r.Chance(0.6), Ext: r.Chance(0.8), HostileSpec: hs, MetaMode: "honest"}
 			ps := PeerSpec{Name: fmt.Sprintf("x%d", i), B: b, Mode: simrt.Pick(r, []string{"dial", "dial", "listen"}), At: r.Dur(0, tp.FaultsStop), Redial: r.Dur(200*time.Millisecond, 5*time.Second), Via: "manual"}
 			tp.Peers = append(tp.Peers, ps)
